@@ -44,8 +44,12 @@ type propCfg struct {
 	RealCode    []string
 	Stubs       []string
 	Exhaustive  bool // inner loop (offsets/splits per sampled file) is complete
-	ReachTotal  int  // size of the reach universe where one is defined (0 = none)
-	ReachWhat   string
+	// RequiredProbes / RequiredReach must have fired at least once in a full run; a probe stuck
+	// at zero means the workload no longer reaches what the check claims (exit 2).
+	RequiredProbes []string
+	RequiredReach  []string
+	ReachTotal     int // size of the reach universe where one is defined (0 = none)
+	ReachWhat      string
 }
 
 var root = "/verif"
@@ -450,12 +454,28 @@ func check(id, tier string) int {
 		fmt.Println(l)
 	}
 
+	var stuck []string
+	if os.Getenv("VERIF_RUNS") == "" && !capHit {
+		for _, p := range cfg.RequiredProbes {
+			if total.Probes[p] == 0 {
+				stuck = append(stuck, "probe:"+p)
+			}
+		}
+		for _, p := range cfg.RequiredReach {
+			if total.Reach[p] == 0 {
+				stuck = append(stuck, "reach:"+p)
+			}
+		}
+	}
 	wall := time.Since(start).Seconds()
 	writeEvidence(id, tier, seed, cfg, total, len(fps), nViol, wall, capHit, det, nwUsed)
 	fmt.Printf("verif: property=%s tier=%s runs=%d evaluations=%d distinct=%d violations=%d wall=%.1fs cap_hit=%v\n",
 		id, tier, total.Runs, total.Evaluations, len(fps), nViol, wall, capHit)
 	if total.Runs == 0 {
 		fatal2("no runs executed")
+	}
+	if len(stuck) > 0 && exit == 0 {
+		fatal2("rare-condition probes stuck at zero (the workload no longer reaches what this check claims): %v", stuck)
 	}
 	return exit
 }
